@@ -591,7 +591,7 @@ def c18(run):
         if os.path.exists(o):
             os.remove(o)
     run.mc("MC_ParserMethod", "ParserMethod.quick.cfg" if q else "ParserMethod.thorough.cfg",
-           env={"OUT": out, "HDR": hdr}, heap="8g", timeout=3000)
+           env={"OUT": out, "HDR": hdr}, heap="8g", timeout=3000, workers=16)
     h = json.loads(open(hdr).readline())
     inputs, lits = h["inputs"], h["lits"]
     ps = progs.ProgSet(run, "C18-parsermethod")
